@@ -13,6 +13,7 @@
              "the range is cluster aligned (blk and num multiples of the ratio: ext2fs_alloc_range/ext2fs_new_range and fallocate's claim_range pass whole clusters) and blk < 2^63 (no 64-bit wrap of blk + num)",
              "blk >= s_first_data_block (every call site passes blocks obtained from the block bitmap; the function itself has no lower bound check: observation unit block_alloc_stats_range_full)",
              "block -> group map: a stub geometry in which the ghost group g_G owns the block interval [GF, GL] and every other block belongs to some other valid group whose last block is arbitrary but consistent (not below the block asked for, below GF if the block is below GF, inside the filesystem); group boundaries are cluster aligned (blocks per group is a multiple of the ratio, s_first_data_block is 0 with bigalloc)",
+             "inuse is +1 or -1 (all call sites pass these literals)",
              "bitmap / descriptor / superblock accessors are stubs over single-index ghost state (alloc_stats_common.h)",
              "about the callback only 'called exactly once after the update when installed' is claimed (its arguments: observation unit)"],
  "native": false,
@@ -120,7 +121,7 @@ void ext2fs_unmark_block_bitmap_range2(ext2fs_block_bitmap bmap, blk64_t block, 
 #define VERIF_INV_BLOCK_ALLOC_STATS_RANGE \
 	__CPROVER_assigns(blk, num, g_gfree, g_gflags, g_gfresh, g_sfree, g_other, g_badgroup, g_touch, g_gof_arg) \
 	__CPROVER_loop_invariant(inuse == 1 || inuse == -1) \
-	__CPROVER_loop_invariant(blk >= LE(blk) && blk + num == LE(blk) + LE(num)) \
+	__CPROVER_loop_invariant(num <= LE(num) && blk == LE(blk) + (LE(num) - num)) \
 	__CPROVER_loop_invariant((blk & MASK) == 0 && (num & MASK) == 0) \
 	__CPROVER_loop_invariant(g_gfree == MOVED(LE(g_gfree), (unsigned int)(ISECT(LE(blk), blk) >> CRB), inuse)) \
 	__CPROVER_loop_invariant(g_gflags == (ISECT(LE(blk), blk) ? (LE(g_gflags) & ~(unsigned int)EXT2_BG_BLOCK_UNINIT) : LE(g_gflags))) \
@@ -130,6 +131,7 @@ void ext2fs_unmark_block_bitmap_range2(ext2fs_block_bitmap bmap, blk64_t block, 
 
 void ext2fs_block_alloc_stats_range(ext2_filsys fs, blk64_t blk, blk_t num, int inuse)
 	REQUIRES(fs->cluster_ratio_bits == CRB)
+	REQUIRES(inuse == 1 || inuse == -1)
 	REQUIRES((blk & MASK) == 0 && (num & MASK) == 0 && blk < (1ULL << 63))
 #ifndef FULL
 	REQUIRES(blk >= fs->super->s_first_data_block)
@@ -184,7 +186,13 @@ static void range_body(void)
 	unsigned int gfree0 = g_gfree, gflags0 = g_gflags;
 	unsigned long long sfree0 = g_sfree;
 
-	ext2fs_block_alloc_stats_range(&FS, IN.blk, IN.num, IN.inuse);
+	/* every call site passes the literal +1 or -1; two calls with a constant keep the products inuse*n constant-folded
+	 * (a symbolic +-1 factor in two 64-bit products does not terminate in the solver) */
+	ASSUME(IN.inuse == 1 || IN.inuse == -1);
+	if (IN.inuse > 0)
+		ext2fs_block_alloc_stats_range(&FS, IN.blk, IN.num, 1);
+	else
+		ext2fs_block_alloc_stats_range(&FS, IN.blk, IN.num, -1);
 
 	if (!active) {
 		CHECK(g_bit == bit0 && g_gfree == gfree0 && g_gflags == gflags0 && g_sfree == sfree0 && g_cb_calls == 0,
